@@ -342,6 +342,7 @@ func (c *clientImpl) doMultiShardGet(key string, options *getOptions, ch chan Ge
 					ch <- toGetResult(nil, key, err)
 					close(ch)
 					counter = 0
+					return
 				}
 
 				selected = selectResponse(options.comparisonType, selected, response)
